@@ -804,7 +804,10 @@ func (s *Stage) cleanWaiting() {
 		}
 		for _, waitFile := range s.fromWait(prevPath) {
 			s.logInfo("Removing wait loop:", waitFile.name, "<-", waitFile.prev)
-			f := s.fromCache(waitFile.path)
+			// The cache lock is already held (for reading) by this function:
+			// taking it again through fromCache deadlocks as soon as a
+			// writer (toCache) is waiting in between
+			f := s.cache[waitFile.path]
 			if f != nil && f.state == stateValidated {
 				if f.wait != nil {
 					f.wait.Stop()
